@@ -139,6 +139,9 @@ type Case struct {
 
 func fileName(tape *sim.Tape, i int, exts []string) string {
 	ext := exts[tape.Draw(len(exts))]
+	if ext != "" && tape.Draw(14) == 0 {
+		ext = strings.ToUpper(ext) // LOGO.SVG: extensions are looked up as written
+	}
 	names := []string{"a", "b", "main", "x.min", "index", "z", "my file", "-dash", "ünï", "UPPER"}
 	n := names[tape.Draw(len(names))] + fmt.Sprint(i)
 	if ext == "" {
@@ -606,6 +609,25 @@ func GenCase(tape *sim.Tape, crashBias bool) *Case {
 				}
 				t.Entries = append(t.Entries, Entry{Path: d, Kind: KFile, Data: data, Mode: 0o644})
 				iv.Prepopulated++
+			}
+		}
+	}
+	// a file that already has the name the command will use for its backup
+	// (not in sync mode: there the file named x.bak is itself an input of the run and the two
+	// tasks collide on the name - a hazard of the pinned tree recorded in DESIGN §8.4)
+	if tape.Draw(6) == 0 && !iv.Sync {
+		if ex := iv.Expect(t); !ex.Rejected && ex.Unsure == "" {
+			for _, j := range ex.Jobs {
+				for _, src := range j.Srcs {
+					cs := filepath.Clean(src)
+					if j.Dst == "" || !(cs == filepath.Clean(j.Dst) || t.aliasOf(src, j.Dst)) || len(filepath.Base(cs)) > 200 {
+						continue
+					}
+					if t.Lookup(cs+".bak") == nil && tape.Draw(2) == 0 {
+						t.Entries = append(t.Entries, Entry{Path: cs + ".bak", Kind: KFile, Data: []byte("an older version, kept by hand\n"), Mode: 0o644, StaleBak: true})
+						iv.StaleBaks++
+					}
+				}
 			}
 		}
 	}
